@@ -123,6 +123,9 @@ zc_publish(const uint8_t *img, size_t len)
 
 /* the offset alphabet of the synthetic files */
 static const int32_t zc_alpha[3] = {-18000, 0, 19800};
+/* offsets of the short-spell files: the jumps between them (1 h .. 6.5 h) exceed the time some of them stay in force */
+static const int32_t zc_spell_alpha[4] = {-10800, -3600, 0, 12600};
+static const int zc_spell_spacing[3] = {3600, 1800, 7200};
 #define ZC_NLAYOUT	4
 static const char zc_layout_name[ZC_NLAYOUT] = {'A', 'B', 'C', 'D'};
 #define ZC_MAXN		5
@@ -200,6 +203,37 @@ zc_src_load(const char *name, struct zc_src *s)
 		}
 		g.tr = tr;
 		g.ty = ty;
+		s->img = rz_gen(&g, &s->len);
+		rz_selfcheck_gen(&g, s->img, s->len, name);
+		snprintf(s->path, sizeof(s->path), "%s", zc_publish(s->img, s->len));
+	} else if (!strncmp(name, "spl:", 4)) {
+		/* short spells: a transition in 1990, then N-1 transitions SPACING seconds apart from 2000-01-01, types from a 4-offset alphabet
+		 * whose jumps are larger than the spacing, in every arrangement (version 2) */
+		int sp, n, code, c;
+		int64_t tr[ZC_MAXN];
+		uint8_t ty[ZC_MAXN];
+		struct rz_gen g;
+		if (sscanf(name, "spl:s%d:n%d:c%d", &sp, &n, &code) != 3 || sp < 1 || n < 1 || n > ZC_MAXN || code < 0) {
+			return -2;
+		}
+		c = code;
+		for (int i = n - 1; i >= 0; i--) {
+			ty[i] = (uint8_t)(c % 4);
+			c /= 4;
+			/* the first range is long (from 1990), the spells start in 2000 */
+			tr[i] = i == 0 ? 631152000LL : 946684800LL + (int64_t)(i - 1) * sp;
+		}
+		if (c) {
+			return -2;
+		}
+		memset(&g, 0, sizeof(g));
+		g.version = 2;
+		g.ntr = n;
+		g.tr = tr;
+		g.ty = ty;
+		g.nty = 4;
+		g.off = zc_spell_alpha;
+		g.leapcnt = 0;
 		s->img = rz_gen(&g, &s->len);
 		rz_selfcheck_gen(&g, s->img, s->len, name);
 		snprintf(s->path, sizeof(s->path), "%s", zc_publish(s->img, s->len));
@@ -360,6 +394,25 @@ zc_catalogue(int with_sys, int with_syn, int maxn, int more_sizes)
 		for (size_t k = 0; k < (more_sizes ? 10U : 6U); k++) {
 			for (int v = 1; v <= 3; v++) {
 				snprintf(nm, sizeof(nm), "big:v%d:n%d", v, sizes[k]);
+				zc_add(nm);
+			}
+		}
+	}
+}
+
+/* the short-spell family: 2..MAXN transitions, every arrangement of 4 types, NSP spacings */
+static void
+zc_catalogue_spells(int maxn, int nsp)
+{
+	char nm[128];
+	for (int k = 0; k < nsp; k++) {
+		for (int n = 2; n <= maxn; n++) {
+			int ncode = 1;
+			for (int i = 0; i < n; i++) {
+				ncode *= 4;
+			}
+			for (int c = 0; c < ncode; c++) {
+				snprintf(nm, sizeof(nm), "spl:s%d:n%d:c%d", zc_spell_spacing[k], n, c);
 				zc_add(nm);
 			}
 		}
